@@ -33,6 +33,15 @@ import c13_corpus
 from common import cz, cbool, clist, cpair, cn
 
 THEOREMS = [
+    'C13_family_dedup',
+    'C13_family_written',
+    'C13_family_inline',
+    'C13_family_fill',
+    'C13_family_linked',
+]
+# the members of the families (coq/Properties/C13.v): each is a Theorem of its
+# own there; one Print Assumptions per family audits them
+MEMBERS = [
     'C13_dedup_merges_equal',
     'C13_dedup_merges_tested',
     'C13_desc_eqb_sound',
@@ -55,6 +64,7 @@ THEOREMS = [
     'C13_inline_score_den',
     'C13_find_occurrences_sound',
     'C13_find_occurrences_complete',
+    'C13_find_occurrences_count',
     'C13_inline_complete',
     'C13_inline_model',
     'C13_inline_total',
@@ -62,11 +72,16 @@ THEOREMS = [
     'C13_fill_geometry_den',
     'C13_cell_transform_den',
     'C13_fill_geometry_den_tr',
+    'C13_pot_fill_tr_spec',
+    'C13_fill_tr_two_runs',
     'C13_fill_flags_lockstep',
     'C13_options_same_geometry',
     'C13_merged_surfaces_equal_senses',
     'C13_options_same_written_linked',
     'C13_options_same_written_dedup_linked',
+    'C13_options_same_written_provenance_linked',
+    'C13_options_same_written_tr_linked',
+    'C13_fill_tr_items',
 ]
 TRUSTED = [
     'hand-written model coq/C13/Model.v (modelled, tied by execution only)',
@@ -791,6 +806,7 @@ def run(res, tier, seed, proofs_ok):
                 'with universes/fills/lattices/unions/duplicate surfaces under '
                 'the option vectors. non-trivial = duplicates present / '
                 'non-empty to_inline / nested or duplicated deck')
+    res.extra['family_members'] = MEMBERS
     run_witnesses(res)
     run_witness_empty(res)
     run_corpus(res)
